@@ -3,6 +3,7 @@ mod gen;
 mod mon;
 mod obs;
 mod pool;
+mod prog;
 mod replay;
 mod toggle;
 
@@ -32,6 +33,23 @@ fn build_suite(name: &str, params: &Value) -> Box<dyn Suite + Send + Sync> {
         "grid" => {
             let nums = |v: &Value| -> Vec<usize> { v.as_array().map(|a| a.iter().map(|x| x.as_u64().unwrap() as usize).collect()).unwrap_or_default() };
             Box::new(Grid { kinds: strs(&params["kinds"]), lens: nums(&params["lens"]), rems: nums(&params["rems"]), offsets: nums(&params["offsets"]), delims: strs(&params["delims"]), tails: strs(&params["tails"]) })
+        }
+        "programs" => {
+            // params: path, variants: [[deco, spacing, {opts}]...], alts: [[spacing, mode]...]
+            let progs = prog::load_programs(params["path"].as_str().unwrap());
+            let variants = params["variants"].as_array().unwrap().iter().map(|v| {
+                let o = &v[2];
+                (v[0].as_u64().unwrap(), v[1].as_u64().unwrap(), prog::Opts {
+                    comments: o["comments"].as_bool().unwrap_or(false),
+                    blank_lines: o["blank_lines"].as_bool().unwrap_or(false),
+                    directives: o["directives"].as_bool().unwrap_or(false),
+                    regions: o["regions"].as_bool().unwrap_or(false),
+                    tight: o["tight"].as_bool().unwrap_or(false),
+                    spacing_mode: o["mode"].as_u64().unwrap_or(1) as u32,
+                })
+            }).collect();
+            let alt_spacings = params["alts"].as_array().map(|a| a.iter().map(|x| (x[0].as_u64().unwrap(), x[1].as_u64().unwrap() as u32)).collect()).unwrap_or_default();
+            Box::new(prog::Programs { progs, variants, alt_spacings })
         }
         "texts" => {
             let path = params["path"].as_str().unwrap();
@@ -135,6 +153,9 @@ fn worker(timeout_ms: u64) {
                 evaluated += 1;
                 skipped += r.skipped_precondition;
                 for (k, n) in &r.nontrivial {
+                    if *k == "unsolved_in_wellformed" && std::env::var("VH_UNSOLVED").is_ok() {
+                        let _ = writeln!(o, "{}", json!({"t": "note", "what": "unsolved", "label": case.label, "text": case.text}));
+                    }
                     *nontrivial.entry(k.to_string()).or_insert(0) += n;
                 }
                 let sess = if !r.viols.is_empty() || sampled { Some(r.session.to_json()) } else { None };
@@ -189,6 +210,12 @@ fn main() {
             let _ = out.flush();
             println!("{}", json!({"replayed": n, "mismatches": bad}));
         }
+        Some("show") => {
+            // vh show <suite> <params-json> <index>: print a case
+            let params: Value = serde_json::from_str(&args[3]).expect("params");
+            let c = build_suite(&args[2], &params).get(args[4].parse().unwrap());
+            println!("{}", json!({"label": c.label, "wf": c.well_formed, "text": c.text, "meta": c.meta}));
+        }
         Some("suite-len") => {
             // vh suite-len <suite> <params-json>
             let params: Value = serde_json::from_str(&args[3]).expect("params");
@@ -212,6 +239,21 @@ fn main() {
         _ => {
             eprintln!("usage: vh worker|pool|suite-len|fmt …");
             std::process::exit(2);
+        }
+    }
+}
+
+#[allow(dead_code)]
+pub fn debug_scan(text: &str, plain: &[String]) {
+    if let Ok(toks) = obs::lex(text) {
+        let got: Vec<&str> = toks.iter().filter(|t| !t.is_comment() && !t.is_directive() && t.kind != "Eof").map(|t| t.text(text)).collect();
+        for i in 0..got.len().max(plain.len()) {
+            let a = got.get(i).copied().unwrap_or("<none>");
+            let b = plain.get(i).map(|s| s.as_str()).unwrap_or("<none>");
+            if a != b {
+                eprintln!("first difference at plain token {i}: scanned {a:?} intended {b:?}");
+                return;
+            }
         }
     }
 }
